@@ -876,7 +876,8 @@ func (s *schemaBuilder) buildFromStruct(decl *entityDecl, st *types.Struct, sche
 			continue
 		}
 
-		ps := tgt.Properties[name]
+		// a field that shadows a property promoted from an embedded struct replaces it altogether
+		var ps spec.Schema
 		if err = s.buildFromType(fld.Type(), schemaTypable{&ps, 0}); err != nil {
 			return err
 		}
